@@ -32,6 +32,8 @@ def run(repo, chk, tier):
     sampling_guard(repo, chk, 'C03.7')
     self_pair_test(repo, chk, 'C03.5')
     flag_mapping(repo, chk)
+    from .kernel_rules import compile_options
+    compile_options(repo, chk, 'C03.9')
 
 
 def flag_mapping(repo, chk):
@@ -47,8 +49,36 @@ def flag_mapping(repo, chk):
     a = ba.get(est.params[3])
     t = term_of(fn, a, inline=True) if a is not None else None
     want = [expected_term(m, f"{heur} == 'MI-numba-randomized'"), expected_term(m, f"True if {heur} == 'MI-numba-randomized' else False")]
-    chk.expect(t in want, 'C03.5c', 'R14', fn.site(cs[0]), f'cardinality_correction = {ast.unparse(a) if a is not None else None}', "correction is on exactly for the heuristic 'MI-numba-randomized'",
-               f"the correction flag must be exactly (heuristic == 'MI-numba-randomized'); found {show(t)[:120] if t else 'flag not passed (default False)'}")
+    if t in want or a is None:
+        chk.expect(t in want, 'C03.5c', 'R14', fn.site(cs[0]), f'cardinality_correction = {ast.unparse(a) if a is not None else None}', "correction is on exactly for the heuristic 'MI-numba-randomized'",
+                   f"the correction flag must be exactly (heuristic == 'MI-numba-randomized'); found {show(t)[:120] if t else 'flag not passed (default False)'}")
+    else:
+        # another spelling: the flag is a function of the heuristic name alone - evaluate it for every name the estimator dispatches on
+        from .common import Undecided, heuristic_universe, pred_eval
+        expr = a
+        for _ in range(4):
+            if isinstance(expr, ast.Name) and expr.id != heur:
+                ds = [n.value for n in own_nodes(fn.node) if isinstance(n, ast.Assign) and len(n.targets) == 1 and isinstance(n.targets[0], ast.Name) and n.targets[0].id == expr.id]
+                if len(ds) != 1:
+                    break
+                expr = ds[0]
+        wrong = None
+        try:
+            for h in sorted(heuristic_universe(repo)):
+                got = bool(pred_eval(expr, {heur: h}, m))
+                if got != (h == 'MI-numba-randomized'):
+                    wrong = (h, got)
+                    break
+        except Undecided as u:
+            chk.unsure('C03.5c', 'R14', fn.site(cs[0]), f'cardinality_correction = {ast.unparse(expr)[:80]}', f'the correction flag is computed with a construct outside the evaluated vocabulary ({u})')
+            wrong = 'undecided'
+        if wrong is None:
+            chk.ok('C03.5c', 'R14', fn.site(cs[0]), f'cardinality_correction = {ast.unparse(expr)[:80]}', "evaluated for every heuristic name: on exactly for 'MI-numba-randomized'")
+        elif wrong != 'undecided':
+            chk.bad('C03.5c', 'R14', fn.site(cs[0]), f'cardinality_correction = {ast.unparse(expr)[:80]}', f"the correction must be on exactly for the heuristic 'MI-numba-randomized'; the flag is {wrong[1]} for {wrong[0]!r}")
     # vectors: feature first, target second
-    ok = ast.unparse(ba.get(est.params[0], ast.Constant(None))).startswith(fn.params[0]) and ast.unparse(ba.get(est.params[1], ast.Constant(None))).startswith(fn.params[1])
+    from .common import param_deps
+    d0 = param_deps(fn, ba.get(est.params[0], ast.Constant(None))) & set(fn.params[:2])
+    d1 = param_deps(fn, ba.get(est.params[1], ast.Constant(None))) & set(fn.params[:2])
+    ok = d0 == {fn.params[0]} and d1 == {fn.params[1]}
     chk.expect(ok, 'C03.5d', 'R6', fn.site(cs[0]), ast.unparse(cs[0]).replace('\n', ' ')[:160], 'feature vector is Y, target vector is X', 'numba_mi must pass (feature, target) as (Y, X)')
